@@ -46,11 +46,14 @@ Definition match_version (line : list Z) : option Z :=
 (* SECTION_DELIM_RE.match(line):  __(\w+)__\n  anchored at the start; -> group 1.
    \w+ is greedy over the maximal run R of word bytes after the leading "__"; "_" is a word byte,
    so the match succeeds iff R = P ++ "__" with P non-empty and the byte after R is \n. *)
-Fixpoint drop_last2 (l : list Z) : option (list Z) :=
+Fixpoint drop_last2 (l : list Z) : option (list Z) :=          (* l = p ++ "__"  ->  Some p *)
   match l with
-  | [95; 95] => Some []
-  | c :: r => match drop_last2 r with Some p => Some (c :: p) | None => None end
   | [] => None
+  | c :: r =>
+    match r with
+    | [d] => if (c =? 95) && (d =? 95) then Some [] else None
+    | _ => match drop_last2 r with Some p => Some (c :: p) | None => None end
+    end
   end.
 Definition match_section (line : list Z) : option (list Z) :=
   match line with
@@ -192,46 +195,53 @@ Fixpoint fmt_split (f : list Z) : option (list Z * list Z) :=
   | [] => None
   end.
 
-(* state: (chunks written so far, reversed; ended_in_newline : None | Some bool) *)
+(* state: (chunks written so far; ended_in_newline : None | Some bool) *)
 Definition wstate := (list (list Z) * option bool)%type.
 
 Definition lua_chunk_text (chunk : list Z) : list Z := utf8_encode (p8_p2u chunk).
 
+Fixpoint last_ends_nl (chunks : list (list Z)) (dflt : option bool) : option bool :=
+  match chunks with
+  | [] => dflt
+  | ch :: r => last_ends_nl r (Some (ends_with_nl ch))
+  end.
+
 Definition write_event (c : cart) (st : wstate) (ev : Z * list Z) : result wstate :=
   let '(out, ended) := st in
   let '(tag, payload) := ev in
-  if tag =? 0 then Ok (payload :: out, ended)
+  if tag =? 0 then Ok (out ++ [payload], ended)
   else if tag =? 1 then
     match payload with
-    | [k] => ls <- section_lines c k ;; Ok (rev_append ls out, ended)
+    | [k] => ls <- section_lines c k ;; Ok (out ++ ls, ended)
     | _ => Err OtherError
     end
   else if tag =? 2 then
     let chunks := lua_to_lines (c_lua c) in
-    Ok (rev_append (map lua_chunk_text chunks) out,
-        match rev' chunks with [] => ended | last :: _ => Some (ends_with_nl last) end)
+    Ok (out ++ map lua_chunk_text chunks, last_ends_nl chunks ended)
   else if tag =? 3 then
-    match ended with Some true => Ok (out, ended) | _ => Ok (payload :: out, ended) end
+    match ended with Some true => Ok (out, ended) | _ => Ok (out ++ [payload], ended) end
   else if tag =? 4 then
-    match c_label c with Some _ => Ok (payload :: out, ended) | None => Ok (out, ended) end
+    match c_label c with Some _ => Ok (out ++ [payload], ended) | None => Ok (out, ended) end
   else if tag =? 5 then
-    match c_label c with Some d => Ok (rev_append (gfx_to_lines d) out, ended) | None => Ok (out, ended) end
+    match c_label c with Some d => Ok (out ++ gfx_to_lines d, ended) | None => Ok (out, ended) end
   else if tag =? 6 then
     match fmt_split payload with
-    | Some (a, b) => Ok ((a ++ dec_of_Z (c_version c) ++ b) :: out, ended)
+    | Some (a, b) => Ok (out ++ [a ++ dec_of_Z (c_version c) ++ b], ended)
     | None => Err OtherError
     end
   else if tag =? 7 then
     _ <- lua_from_lines (lua_to_lines (c_lua c)) ;; Ok st
   else Err OtherError.
 
-(* the chunks handed to outstr.write, in order *)
+(* the chunks handed to outstr.write, in order (about twenty events: the appends are cheap) *)
 Definition write_p8_chunks (c : cart) : result (list (list Z)) :=
-  st <- foldM (write_event c) p8_write_events ([], None) ;; Ok (rev' (fst st)).
+  st <- foldM (write_event c) p8_write_events ([], None) ;; Ok (fst st).
 Definition write_p8 (c : cart) : result (list Z) :=
   ch <- write_p8_chunks c ;; Ok (concat ch).
 
 End WithLua.
+Arguments c_version {lua} _. Arguments c_lua {lua} _. Arguments c_gfx {lua} _. Arguments c_label {lua} _.
+Arguments c_gff {lua} _. Arguments c_map {lua} _. Arguments c_sfx {lua} _. Arguments c_music {lua} _.
 
 (* ---------- the instance used by the correspondence runner: the Lua object is the list of chunks
    it echoes; lexing is the identity (the lexer itself is checked by C06/C07) ---------- *)
